@@ -29,7 +29,7 @@ COMPONENTS = {"real": ["py7zr reader", "codec libraries"], "stub": ["archive dev
 def plan(tier):
     if tier == "thorough":
         return {"n": None, "budget_s": int(os.environ.get("VERIF_BUDGET_S", "900")), "case_timeout": 600}
-    return {"n": 48, "budget_s": 170, "case_timeout": 300}
+    return {"n": 40, "budget_s": 150, "case_timeout": 300}
 
 
 def gen_case(rng: Rng, i: int, tier: str):
